@@ -1,6 +1,6 @@
 """C16: CLI-ARGS (clap argument table extracted from the derive output's MIR), CLI-GUARD (every
 write to the output stream is control dependent on the match predicate), CLI-PATS."""
-from . import core
+from . import core, cond, coll
 from .core import Callee, walk, show
 from .view import FnView, pnorm
 from .pat import m, ANY, V, K, Par, C, F, E, P, B, Phi, members
@@ -156,10 +156,30 @@ def rule_cli_guard(ctx, R):
     ctx.check(len(writes) >= 2, "CLI-GUARD", b, "stream-writes-found", b.span, "no writes to the output stream found")
     # positive guards
     guards = []   # (switch bb, positive target, description)
-    for sbi, stj, d in switches_on(root, lambda d: d[0] == "call" and core.callee_base(d[1]) == "core::option::Option::is_some"):
-        meth = _search_iter_on_line(d[2][0], line, pma)
-        if meth and any(x[0] == "call" and core.callee_base(x[1]) == "core::iter::Iterator::next" for x in walk(d[2][0])):
-            guards.append((sbi, bool_arms(stj)[0], "%s(line).next().is_some()" % meth))
+    def first_match(t):
+        """t is `<search iterator over (pma, line)>.next()`"""
+        if t[0] == "call" and isinstance(t[1], str) and core.callee_base(t[1]) == "core::iter::Iterator::next":
+            return _search_iter_on_line(t[2][0], line, pma)
+        return None
+    # has-a-match tests in any form: .is_some() / !.is_none() / `if let Some(_) =` / match on the first item
+    for sbi, stj, d in switches_on(root, lambda d: True):
+        neg = False
+        x = d
+        while x[0] == "un" and x[1] == "Not":
+            neg = not neg
+            x = x[2]
+        if x[0] == "call" and isinstance(x[1], str) and core.callee_base(x[1]) in ("core::option::Option::is_some", "core::option::Option::is_none"):
+            meth = first_match(x[2][0])
+            if meth:
+                if core.callee_base(x[1]).endswith("is_none"):
+                    neg = not neg
+                tt, ff = bool_arms(stj)
+                guards.append((sbi, ff if neg else tt, "%s(line).next() is Some" % meth))
+        elif x[0] == "discr" and not neg:
+            meth = first_match(x[1])
+            # a loop pull is not a has-a-match test of its own (the flag rule below covers loops)
+            if meth and not b.in_cycle(sbi):
+                guards.append((sbi, opt_arms(stj)[0], "%s(line).next() is Some" % meth))
     # bool flag set only inside a loop over a search iterator
     for sbi, stj, d in switches_on(root, lambda d: True):
         disc = stj["discr"]
@@ -269,10 +289,10 @@ def rule_cli_pats(ctx, R):
     if not ok:
         return
     pats = news[0]["args"][0]
-    pushes = [s for s in S.keyed(lambda k: k == "alloc::vec::Vec::push") if core.same(s["args"][0], pats)]
+    adds = coll.additions(S, lambda t: core.same(t, pats))
     srcs = set()
-    for s in pushes:
-        for x in walk(s["args"][1]):
+    for a in adds:
+        for x in walk(a.val):
             if x[0] == "field" and x[3] in ("patterns", "pattern_file"):
                 srcs.add(x[3])
     ctx.check(srcs == {"patterns", "pattern_file"}, "CLI-PATS", b, "both-sources", b.span,
@@ -353,75 +373,37 @@ def rule_cli_lines(ctx, R):
         if fnm[0] == "agg" and fnm[2] == "None":
             ctx.ok("CLI-FLAGS", b, "stdin-no-filename", loc, "stdin lines carry no file name")
         else:
-            okc = fnm[0] == "call" and core.callee_base(fnm[1]) == "core::option::Option::and_then" and fnm[2][1][0] == "closure"
-            if okc:
-                cr = S.fv.closure_ret(fnm[2][1][1])
-                ups = fnm[2][1][2]
-                okc = cr is not None and any(x[0] == "agg" and x[2] == "None" for x in members(cr)) and \
-                    any(x[0] == "agg" and x[2] == "Some" for x in members(cr)) and any(u[0] == "field" and u[3] == "no_filename" for u in ups) and \
-                    any(y[0] == "call" and y[1].endswith("Path::to_str") for y in walk(fnm[2][0]))
-                if okc:
-                    # inside the closure: None exactly on the true arm of the no_filename test, Some(filename) on the false arm
-                    cv = [v_ for v_ in S.fv.views if v_.body.path == fnm[2][1][1]][0]
-                    cb = cv.body
-                    csw = switches_on(cv, lambda d: d[0] == "field" and d[3] == "no_filename")
-                    okc = len(csw) == 1 and len([1 for bi_ in cb.live_blocks() if cb.blocks[bi_]["term"]["k"] == "switch"]) == 1
-                    if okc:
-                        tt_, ff_ = bool_arms(csw[0][1])
-                        somes_ = [bi_ for bi_, si_, st_ in cb.stmts() if st_["k"] == "assign" and st_["lhs"]["local"] == 0 and st_["rv"]["k"] == "aggregate" and st_["rv"].get("variant") == "Some"]
-                        nones_ = [bi_ for bi_, si_, st_ in cb.stmts() if st_["k"] == "assign" and st_["lhs"]["local"] == 0 and st_["rv"]["k"] == "aggregate" and st_["rv"].get("variant") == "None"]
-                        okc = bool(somes_) and bool(nones_) and all(x not in cb.reach(tt_) for x in somes_) and all(x not in cb.reach(ff_) for x in nones_)
+            # Some(file's own name) exactly when !args.no_filename (whatever the source form: and_then + if, filter, then_some..)
+            def own_name(x):
+                return any(y[0] == "call" and y[1].endswith("Path::to_str") for y in walk(x)) and x[0] in ("payload", "call")
+            okc = cond.some_iff(S.fv, S.root, fnm, s["tj"]["args"][pn["filename"]],
+                                lambda t: t[0] == "field" and t[3] == "no_filename", False, own_name)
             ctx.check(okc, "CLI-FLAGS", b, "filename-unless-no-filename", loc,
                       "file lines carry the file's own name unless -h/--no-filename is set; found %s" % show(fnm)[:200])
         ln = s["args"][pn["line_no"]]
-        if ln[0] == "call" and core.callee_base(ln[1]) == "core::bool::then_some" and len(ln[2]) == 2:
-            okt = ln[2][0][0] == "field" and ln[2][0][3] == "line_number" and _lines_enumerate(ln[2][1], "0") == site and site is not None
-            ctx.check(okt, "CLI-LINES", b, "line-number-is-enumerate-index", loc,
-                      "the line number must be args.line_number.then_some(enumerate index of that same line); found %s" % show(ln)[:200])
-            ctx.check(okt, "CLI-FLAGS", b, "line-number-iff-flag", loc, "line numbers are passed exactly when -n/--line-number is set")
-            ctx.check(m(F(ANY, "color"), s["args"][pn["color"]]), "CLI-FLAGS", b, "color-from-args", loc, "the colour mode passed on is args.color")
-            continue
-        okn = True
-        seen_some = seen_none = False
-        for x in members(ln):
-            if x[0] == "agg" and x[2] == "None":
-                seen_none = True
-            elif x[0] == "agg" and x[2] == "Some":
-                seen_some = True
-                idx = dict(x[3])["0"]
-                okn = okn and _lines_enumerate(idx, "0") == site and site is not None
-            else:
-                okn = False
-        ctx.check(okn and seen_some and seen_none, "CLI-LINES", b, "line-number-is-enumerate-index", loc,
+        def same_index(x):
+            return site is not None and _lines_enumerate(x, "0") == site
+        okt = cond.some_iff(S.fv, S.root, ln, s["tj"]["args"][pn["line_no"]],
+                            lambda t: t[0] == "field" and t[3] == "line_number", True, same_index)
+        ctx.check(okt, "CLI-LINES", b, "line-number-is-enumerate-index", loc,
                   "the line number must be Some(enumerate index of that same line) or None; found %s" % show(ln)[:200])
-        # Some exactly under args.line_number
-        sw = switches_on(S.root, lambda d: d[0] == "field" and d[3] == "line_number")
-        somes = [bi for bi, si, st in b.stmts() if st["k"] == "assign" and st["rv"]["k"] == "aggregate" and st["rv"].get("variant") == "Some"
-                 and _lines_enumerate(pnorm(S.root.T.rvalue(st["rv"]))[3][0][1], "0") == site and site is not None]
-        okf = bool(somes) and all(any(b.edge_guards((sbi, bool_arms(stj)[0]), bi) for sbi, stj, d in sw) for bi in somes)
-        ctx.check(okf, "CLI-FLAGS", b, "line-number-iff-flag", loc, "line numbers are passed exactly when -n/--line-number is set")
+        ctx.check(okt, "CLI-FLAGS", b, "line-number-iff-flag", loc, "line numbers are passed exactly when -n/--line-number is set")
         ctx.check(m(F(ANY, "color"), s["args"][pn["color"]]), "CLI-FLAGS", b, "color-from-args", loc, "the colour mode passed on is args.color")
     ctx.check(len(calls) == 2, "CLI-LINES", b, "two-line-loops", b.span, "one per-line loop for stdin and one for files expected; found %d" % len(calls))
     # ---- pattern collection guards: -f lines and -p pieces are kept iff non-empty, unmodified
-    pushes = [s for s in S.keyed(lambda k: k == "alloc::vec::Vec::push") if s["args"][0][0] == "var"]
-    for s in pushes:
-        val = s["args"][1]
+    adds = coll.additions(S, lambda t: t[0] == "var")
+    for a in adds:
+        val = a.val
         src = val[2][0] if (val[0] == "call" and val[1].endswith("to_string")) else val
-        guards = [g for g in S.calls if g["name"] == "is_empty" and core.same(g["args"][0], src)]
-        okg = len(guards) == 1
-        if okg:
-            sw = switches_on(S.root, lambda d: d[0] == "call" and d[3] == (b.path, guards[0]["bb"]))
-            sw += switches_on(S.root, lambda d: d[0] == "un" and d[1] == "Not" and d[2][0] == "call" and d[2][3] == (b.path, guards[0]["bb"]))
-            okg = len(sw) == 1
-            if okg:
-                sbi, stj, d = sw[0]
-                tt, ff = bool_arms(stj)
-                keep = ff if d[0] == "call" else tt
-                okg = b.edge_guards((sbi, keep), s["bb"])
+
+        def empty(t):
+            return t[0] == "call" and t[1].split("@")[0].endswith("::is_empty") and len(t[2]) == 1 and core.same(t[2][0], src)
+        okg = a.kept_iff(empty, False)
         modified = [x[1] for x in walk(src) if x[0] == "call" and isinstance(x[1], str) and x[1].startswith("core::str::") and
                     x[1].split("::")[-1] in ("trim", "trim_start", "trim_end", "trim_matches", "to_lowercase", "to_uppercase", "strip_prefix", "strip_suffix")]
-        ctx.check(okg and not modified, "CLI-PATS", b, "pattern-kept-iff-nonempty", b.loc(s["bb"]),
-                  "a pattern line/piece is kept exactly when it is non-empty, and unmodified (no trimming); pushed %s" % show(val)[:160])
+        ctx.check(okg and not modified, "CLI-PATS", b, "pattern-kept-iff-nonempty", b.loc(a.bb),
+                  "a pattern line/piece is kept exactly when it is non-empty, and unmodified (no trimming); added %s" % show(val)[:160])
+    ctx.check(len(adds) >= 2, "CLI-PATS", b, "pattern-additions", b.span, "the -f and the -p source each add their patterns to the collection")
 
 
 def rule_cli_print(ctx, R):
@@ -504,14 +486,14 @@ def rule_cli_hl2(ctx, R):
     in_loop = [s for s in segs if s["args"][1][0] == "agg" and s["args"][1][1] == "core::ops::Range"]
     tail = [s for s in segs if s["args"][1][0] == "agg" and s["args"][1][1] == "core::ops::RangeFrom"]
     prev = Phi(K(0), pos)
-    ok = len(in_loop) == 2 and len(tail) == 1
+    ok = len(in_loop) >= 1 and len(tail) == 1
     if ok:
         for s in in_loop:
             f = dict(s["args"][1][3])
             ok = ok and m(prev, f["start"]) and m(pos, f["end"])
         ok = ok and m(prev, dict(tail[0]["args"][1][3])["start"])
     ctx.check(ok, "CLI-HL2", b, "segments", b.span,
-              "the loop prints line[prev_pos..pos] (pos = index in the delta buffer) twice and finally line[prev_pos..]; found %s"
+              "the loop prints line[prev_pos..pos] (pos = index in the delta buffer) and finally line[prev_pos..]; found %s"
               % [show(s["args"][1])[:80] for s in segs])
     if not ok:
         return
@@ -519,43 +501,46 @@ def rule_cli_hl2(ctx, R):
     if len(sw_p) != 1:
         return
     some, none = opt_arms(sw_p[0][1])
-    # depth: 0 | depth + delta
-    depth_terms = []
-    for sbi, stj, d in switches_on(root, lambda d: d[0] == "bin" and d[1] in ("Eq", "Ne") and (is_const(d[2], 0) or is_const(d[3], 0))):
-        if b.edge_guards((sw_p[0][0], some), sbi):
-            depth_terms.append((sbi, stj, d))
+    # depth: 0 | depth + delta.  The two atomic conditions are (old depth == 0) and (new depth == 0); the loop body is evaluated
+    # under each of their four combinations (cond.explore), whatever the source form of the test is
     olddepth = Phi(K(0), B("Add", ANY, delta), req=[0, 1])
     newdepth = B("Add", Phi(K(0), B("Add", ANY, delta)), delta)
 
-    def cls(d):
-        x = d[3] if is_const(d[2], 0) else d[2]
-        if m(newdepth, x) and x[0] == "bin":
-            return "new"
-        if m(olddepth, x):
-            return "old"
-        return None
-    conds = {}
-    for sbi, stj, d in depth_terms:
-        c = cls(d)
-        if c:
-            tt, ff = bool_arms(stj)
-            conds.setdefault((c, d[1]), []).append((sbi, tt))
+    def atom(which):
+        def f(t):
+            if not (t[0] == "bin" and t[1] == "Eq" and (is_const(t[2], 0) or is_const(t[3], 0))):
+                return False
+            x = t[3] if is_const(t[2], 0) else t[2]
+            if which == "new":
+                return x[0] == "bin" and m(newdepth, x)
+            return x[0] != "bin" and m(olddepth, x)
+        return f
+    O, N = atom("old"), atom("new")
     resets = [s for s in S.calls if s["name"] == "reset" and m(Par(pnames["stream"]), s["args"][0])]
     setc = [s for s in S.calls if s["name"] == "set_color" and m(Par(pnames["stream"]), s["args"][0])]
+    segb = {s["bb"] for s in in_loop}
+    resb = {s["bb"] for s in resets}
+    setb = {s["bb"] for s in setc}
+    pull = pulls[0]["bb"]
 
-    def guarded(blk, keys):
-        return all(any(b.edge_guards((sbi, tt), blk) for sbi, tt in conds.get(k, [])) for k in keys)
-    plain = [s for s in in_loop if guarded(s["bb"], [("old", "Eq"), ("new", "Ne")])]
-    red = [s for s in in_loop if guarded(s["bb"], [("old", "Ne"), ("new", "Eq")])]
-    ctx.check(len(plain) == 1 and len(red) == 1 and plain[0] is not red[0], "CLI-HL2", b, "transition-guards", b.span,
-              "the plain segment is flushed when depth goes 0 -> non-0, the highlighted segment when it goes non-0 -> 0 "
+    def flushes(o, n, first, never):
+        """under (old==0)=o,(new==0)=n every path through the body reaches a segment write, a `first` call precedes it on
+        every path and no `never` call precedes it on any path (error returns of `?` may leave the loop)"""
+        at = [(O, o), (N, n)]
+        v1 = cond.explore(root, [some], at, stop=segb)
+        v2 = cond.explore(root, [some], at, stop=first | segb)
+        return v1 is not None and v2 is not None and bool(v1 & segb) and pull not in v1 and not (v1 & never) and not (v2 & segb)
+
+    def quiet(o, n):
+        v = cond.explore(root, [some], [(O, o), (N, n)], stop={pull})
+        return v is not None and not (v & (segb | resb | setb))
+    okt = flushes(True, False, resb, setb) and flushes(False, True, setb, resb) and quiet(True, True) and quiet(False, False)
+    ctx.check(okt, "CLI-HL2", b, "transition-guards", b.span,
+              "the plain segment is flushed (after reset) exactly when depth goes 0 -> non-0, the highlighted segment (after "
+              "set_color) exactly when it goes non-0 -> 0, and nothing is written while the depth stays zero / non-zero "
               "(depth = running sum of the deltas)")
-    if len(plain) == 1 and len(red) == 1:
-        okc = any(b.dominates(r["bb"], plain[0]["bb"]) and guarded(r["bb"], [("old", "Eq")]) for r in resets) and \
-            any(b.dominates(c["bb"], red[0]["bb"]) and guarded(c["bb"], [("old", "Ne")]) for c in setc)
-        ctx.check(okc, "CLI-HL2", b, "colours", b.span, "the plain segment is written after reset(), the matched segment after set_color()")
-        redspec = [x for c in setc for x in walk(c["args"][1]) if x[0] == "agg" and x[2] == "Red"]
-        ctx.check(bool(redspec), "CLI-HL2", b, "highlight-colour", b.span, "matched text is highlighted (foreground colour set)")
+    redspec = [x for c in setc for x in walk(c["args"][1]) if x[0] == "agg" and x[2] == "Red"]
+    ctx.check(bool(redspec), "CLI-HL2", b, "highlight-colour", b.span, "matched text is highlighted (foreground colour set)")
     # depth := new depth on every iteration; prev := pos after each flush
     ctx.check(any(b.edge_guards((sw_p[0][0], none), r["bb"]) and b.dominates(r["bb"], tail[0]["bb"]) for r in resets) and
               b.edge_guards((sw_p[0][0], none), tail[0]["bb"]), "CLI-HL2", b, "tail", b.span,
